@@ -37,7 +37,9 @@ class Ctx:
         self.co = M("constants")
         self.exc = M("exceptions")
         self._atom_cache0 = dict(self.gr._PROCESS_ATOM_CACHE) if hasattr(self.gr, "_PROCESS_ATOM_CACHE") else None
-        self._presets0 = {k: dict(v) for k, v in self.bc._PRESET_CONSTRAINTS.items()}
+        from .docs import presets_doc
+        self._presets0 = presets_doc()   # documented presets (the oracle side of every history)
+        self._presets_import = {k: dict(v) for k, v in getattr(self.bc, "_PRESET_CONSTRAINTS", {}).items()}
         # generic snapshot of every module-level mutable container of the package (whatever it is called):
         # restored in place before every path, so that re-execution is deterministic also for state the harness does not know by name
         self._globals0 = []
@@ -54,7 +56,6 @@ class Ctx:
                 else:
                     snap = set(obj)
                 self._globals0.append((mod, nm, obj, snap))
-        self._default_obj = self.bc._PRESET_CONSTRAINTS.get("default")
         self.stubs = list(symstr.WRAPPED) + ["injected names: " + ", ".join(sorted(symstr.INJECTED))]
 
     # -- per-path reset of module-level mutable state
@@ -96,19 +97,25 @@ class Ctx:
         prop = getattr(mg.Atom, "bonding_capacity", None)
         if isinstance(prop, property) and hasattr(prop.fget, "cache_clear"):
             prop.fget.cache_clear()
-        # presets back to their import-time contents (same objects)
-        for k, v in self._presets0.items():
-            cur = bc._PRESET_CONSTRAINTS.get(k)
-            if cur is None:
-                bc._PRESET_CONSTRAINTS[k] = dict(v)
-            elif cur != v:
-                cur.clear()
-                cur.update(v)
-        for k in list(bc._PRESET_CONSTRAINTS):
-            if k not in self._presets0:
-                del bc._PRESET_CONSTRAINTS[k]
+        # presets back to their import-time contents (same objects; the mapping itself is restored by _restore_globals,
+        # so a preset that is built lazily is "not built yet" again at the start of every path, as in a fresh process)
+        store = getattr(bc, "_PRESET_CONSTRAINTS", None)
+        if isinstance(store, dict):
+            for k, v in self._presets_import.items():
+                cur = store.get(k)
+                if cur is None:
+                    store[k] = dict(v)
+                elif cur != v:
+                    cur.clear()
+                    cur.update(v)
+            for k in list(store):
+                if k not in self._presets_import:
+                    del store[k]
         if table is None:
-            bc._current_constraints = bc._PRESET_CONSTRAINTS["default"]
+            if isinstance(store, dict) and "default" in store:
+                bc._current_constraints = store["default"]
+            else:
+                bc.set_semantic_constraints("default")
         else:
             bc._current_constraints = table
 
